@@ -23,9 +23,11 @@ Init == /\ entries = Empty /\ nev = 0 /\ pending = {} /\ nextVer = 1 /\ lastVer 
 
 \* processMdnsEntry as implemented: mandatory elements, txtvers, own SKI, boolean register, link-local filter,
 \* remove / merge / new; a report goroutine with a snapshot is spawned iff the table changed
-Resolve(s, txt, addrs, remove) ==
+\* The resolver hands over an address LIST: rep = how often the list repeats every address, rev = listed in descending order.
+\* Neither matters for the table (a set per service) - which is the point: the real table must not show duplicates either.
+Resolve(s, txt, addrs, remove, rep, rev) ==
     /\ nev < MaxEvents
-    /\ LET e   == [s |-> s, txt |-> txt, addrs |-> addrs, remove |-> remove]
+    /\ LET e   == [s |-> s, txt |-> txt, addrs |-> addrs, remove |-> remove, rep |-> rep, rev |-> rev]
            new == ApplyEv(entries, e)
            upd == \/ (ValidTxt(txt) /\ remove /\ s \in DOMAIN entries)
                   \/ (ValidTxt(txt) /\ ~remove /\ s \notin DOMAIN entries)
@@ -49,8 +51,10 @@ Deliver(r) ==
 
 \* (the sequence has duplicates on purpose: it weights the simulator's choice towards valid records)
 TxtWeighted == <<"valid", "valid", "valid", "valid", "validBadCat", "validBadCat", "noVers", "vers2", "noId", "noPath", "noSki", "ownSki", "regNotBool">>
-Next == \/ \E s \in Services, i \in 1..Len(TxtWeighted), addrs \in SUBSET Addrs, remove \in BOOLEAN :
-              (remove => addrs = {}) /\ Resolve(s, TxtWeighted[i], addrs, remove)
+Next == \/ \E s \in Services, i \in 1..Len(TxtWeighted), addrs \in SUBSET Addrs, remove \in BOOLEAN, rep \in 1..2, rev \in BOOLEAN :
+              /\ (remove => addrs = {})
+              /\ (addrs = {} => rep = 1) /\ (Cardinality(addrs) < 2 => ~rev)
+              /\ Resolve(s, TxtWeighted[i], addrs, remove, rep, rev)
         \/ \E r \in pending : Deliver(r)
 Spec == Init /\ [][Next]_vars /\ WF_vars(\E r \in pending : Deliver(r))
 
